@@ -38,6 +38,8 @@ type Property struct {
 	// property itself (C04, C14, C17, C19 say "never panics / returns normally").
 	DeathIsViolation bool
 	HangIsViolation  bool
+	// DeathClass names the input class of case k (stable across seeds) for the signature of a process death.
+	DeathClass func(tier string, seed int64, k int64) string
 	NeedPty          bool
 	// Race: the thorough tier additionally runs RaceCases cases on RaceG goroutines under -race.
 	RaceCases int64
